@@ -17,7 +17,8 @@ def match_known(known, prop, sig):
 
 def finish(prop, tier, seed, jobs, by_id, info, wall, known, write=True):
     tot = dict(obligations=0, discharged=0, inconclusive=0, oob=0, paths=0, cuts=0, nontrivial=0,
-               bool_checks=0, z3_queries=0, z3_seconds=0.0, shadow_answers=0, vacuity_sat=0)
+               bool_checks=0, z3_queries=0, z3_seconds=0.0, shadow_answers=0, vacuity_sat=0,
+               by_rewriter=0, by_identity=0, star_obligations=0, star_discharged=0)
     entered = set()
     samples = []
     notes = []
@@ -51,7 +52,8 @@ def finish(prop, tier, seed, jobs, by_id, info, wall, known, write=True):
             else:
                 harness_errors.append(f"canary job {j['job_id']} ({cname}) found no violation: vacuous harness?")
             continue
-        for k in ("obligations", "discharged", "inconclusive", "oob", "paths", "cuts", "nontrivial", "bool_checks", "vacuity_sat"):
+        for k in ("obligations", "discharged", "inconclusive", "oob", "paths", "cuts", "nontrivial", "bool_checks", "vacuity_sat",
+                  "by_rewriter", "by_identity", "star_obligations", "star_discharged"):
             tot[k] += r.get(k, 0)
         for k in ("paths", "obligations", "discharged", "inconclusive", "oob"):
             pc[k] += r.get(k, 0)
@@ -117,6 +119,10 @@ def finish(prop, tier, seed, jobs, by_id, info, wall, known, write=True):
         paths=tot["paths"], z3_queries=tot["z3_queries"], z3_seconds=round(tot["z3_seconds"], 2),
         shadow_answers=tot["shadow_answers"], tolerance_cuts=tot["cuts"], paths_with_model=tot["vacuity_sat"],
         canaries=dict(run=canary_total, detected=canary_ok),
+        discharged_by=dict(rewriter=tot["by_rewriter"], identity=tot["by_identity"], boolean_per_path=tot["bool_checks"],
+                           solver_search=tot["discharged"] - tot["by_rewriter"] - tot["by_identity"] - tot["bool_checks"]),
+        star_argument_check=dict(paths_with_star=tot["star_obligations"], implied_by_pivots=tot["star_discharged"],
+                                 note="paths on which z3 showed (oracle pivots > 0) => (every star argument the implementation formed < 1); elsewhere the identities are established wherever the implementation's own star arguments are < 1"),
         jobs=len(jobs), jobs_resource_limited=resource,
         per_case=per_case,
         functions_entered=sorted(entered),
